@@ -52,6 +52,7 @@ type (
 	ELet struct {
 		Name string
 		V, B Expr
+		Typ  string // declared type of the bound name (parameter substitution), may be empty
 	}
 )
 
@@ -388,7 +389,7 @@ func (p *parser) primary() Expr {
 			}
 			p.next()
 			b := p.expr(0)
-			return ELet{n.v, v, b}
+			return ELet{Name: n.v, V: v, B: b}
 		}
 		if p.isOp("(") {
 			p.next()
@@ -432,6 +433,7 @@ type Contract struct {
 	Ensures  []*Clause
 	Invs     []*Clause
 	Records  []*Clause // `records #g := e`: ghost bookkeeping applied at call sites only
+	Sets     []*Clause // ghost-after hooks: `set x.#f := e`
 	Modifies []string
 	HasMod   bool
 	Body     Expr // pred/fun/axiom
@@ -450,8 +452,8 @@ type Contract struct {
 	Notes    []string
 }
 
-var headRe = regexp.MustCompile(`^(func|trusted func|loop|pred|fun|lemma|axiom|ghost var|ghost field|chan|guarded|sort|assume-call|callsite|implements|immutable)\s+(.*)$`)
-var clauseRe = regexp.MustCompile(`^(requires|ensures|invariant|modifies|records|reveals|nopanic|maypanic|pure|opaque|induction|note)\b\s*(.*)$`)
+var headRe = regexp.MustCompile(`^(func|trusted func|loop|pred|fun|lemma|axiom|ghost var|ghost field|chan|guarded|sort|assume-call|callsite|implements|immutable|ghost-after|global-const)\s+(.*)$`)
+var clauseRe = regexp.MustCompile(`^(requires|ensures|invariant|modifies|records|set|reveals|nopanic|maypanic|pure|opaque|induction|note)\b\s*(.*)$`)
 
 // splitParams splits "a int, b []T" at top-level commas into name/type pairs.
 func splitParams(s string) []Param {
@@ -667,7 +669,7 @@ func ParseContractFile(path, pkgPath string) ([]*Contract, error) {
 				if len(f) > 1 {
 					cur.Sort = strings.Join(f[1:], " ")
 				}
-			case "chan", "guarded", "immutable":
+			case "chan", "guarded", "immutable", "ghost-after", "global-const":
 				cur.Name = rest
 			case "implements":
 				// implements FUNC as IFACEMETHOD
@@ -713,6 +715,13 @@ func ParseContractFile(path, pkgPath string) ([]*Contract, error) {
 			case "invariant":
 				curClause = &Clause{Kind: "invariant", Text: m[2], Pos: pos, Idx: len(cur.Invs) + 1}
 				cur.Invs = append(cur.Invs, curClause)
+			case "set":
+				i := strings.Index(m[2], ":=")
+				if i < 0 {
+					return nil, fmt.Errorf("%s: set needs `lhs := expr`", pos)
+				}
+				curClause = &Clause{Kind: "set:" + strings.TrimSpace(m[2][:i]), Text: m[2][i+2:], Pos: pos, Idx: len(cur.Sets) + 1}
+				cur.Sets = append(cur.Sets, curClause)
 			case "records":
 				i := strings.Index(m[2], ":=")
 				if i < 0 {
